@@ -678,6 +678,10 @@ class Emitter:
         if op in ("<<", ">>"):
             a, t = self.expr(e[2], env, want)
             b, _ = self.expr(e[3], env, None)
+            if re.match(r"^\d+$", b) and int(b) < WIDTH[t]:
+                # a literal amount below the width cannot panic: same canonical form as wrapping_shl / wrapping_shr /
+                # rotate_* with a literal amount (so that `(h >> 17) | (h << 15)` and `h.rotate_right(17)` coincide)
+                return "(%s %d %s %s)" % ("Rt.wrappingShl" if op == "<<" else "Rt.wrappingShr", WIDTH[t], par(a), b), t
             f = "Rt.shlChk" if op == "<<" else "Rt.shrChk"
             return "(← %s %d %s %s %s)" % (f, WIDTH[t], par(a), par(b), self.site("shift")), t
         t0 = lt or rt or (want if want in INTS else None)
@@ -795,8 +799,15 @@ class Emitter:
                 a, _ = self.expr(args[0], env, "u32")
                 f = "Rt.wrappingShr" if m == "wrapping_shr" else "Rt.wrappingShl"
                 return "(%s %d %s %s)" % (f, w, par(r), par(a)), rt
-            if m in ("rotate_right", "rotate_left") and len(args) == 1 and rt == "u32":
+            if m in ("rotate_right", "rotate_left") and len(args) == 1:
                 a, _ = self.expr(args[0], env, "u32")
+                if re.match(r"^\d+$", a) and 0 < int(a) < w:
+                    n = int(a)
+                    if m == "rotate_right":
+                        return "(Nat.lor (Rt.wrappingShr %d %s %d) (Rt.wrappingShl %d %s %d))" % (w, par(r), n, w, par(r), w - n), rt
+                    return "(Nat.lor (Rt.wrappingShr %d %s %d) (Rt.wrappingShl %d %s %d))" % (w, par(r), w - n, w, par(r), n), rt
+                if rt != "u32":
+                    raise Untranslatable("rotate on %s" % rt)
                 if m == "rotate_right":
                     return "(Nat.lor (Rt.wrappingShr 32 %s %s) (Rt.wrappingShl 32 %s (32 - %s %% 32)))" % (par(r), par(a), par(r), par(a)), rt
                 return "(Nat.lor (Rt.wrappingShl 32 %s %s) (Rt.wrappingShr 32 %s (32 - %s %% 32)))" % (par(r), par(a), par(r), par(a)), rt
